@@ -124,6 +124,10 @@ def Enc.held (e : Enc) : List BlockId :=
   e.storage ++ e.commands ++ e.ring ++ e.hasher ++ e.table ++ e.cbuf ++ e.lbuf ++ e.ext ++ e.self ++
     e.mem ++ e.input ++ e.tmp
 
+/-- the blocks referenced from the seven owning fields of the state -/
+def Enc.fields (e : Enc) : List BlockId :=
+  e.storage ++ e.commands ++ e.ring ++ e.hasher ++ e.table ++ e.cbuf ++ e.lbuf
+
 /-! ## World and micro-actions -/
 
 structure W where
@@ -275,7 +279,7 @@ def ringOpt (m8 : Nat) : Option Nat → List Act
 /-- one call of the public API; `Except.error` = the recorded event is impossible in this state -/
 def step (fl : Flags) (w : W) : Op → Except String W
   | .create ffi =>
-    if w.enc.held ≠ [] then .error "create-on-live-instance" else
+    if w.enc.fields ++ w.enc.self ≠ [] then .error "create-on-live-instance" else
     .ok (w.acts (if ffi then [.alloc w.m8 .self 1] else []))
   | .mkExt lens =>
     if lens = [] ∨ w.enc.ext ≠ [] then .error "mkext" else
